@@ -232,3 +232,25 @@ Print Assumptions C03_text_agrees_sound.
 Theorem C03_text_agrees_plain : forall b i, Forall (fun c => c <> 1) b -> text_agrees (S (length b)) b i = true -> i = b.
 Proof. exact text_agrees_plain. Qed.
 Print Assumptions C03_text_agrees_plain.
+
+(* ---- check 304 end to end on the model side: a text the comparison accepts against the marker walk of a conforming value
+   is the canonical text of the SPEC tree (tokens jtoks e: brackets, commas, quoted keys, literals, strings) in which every double
+   is spelled by a JSON number lexeme denoting exactly its bits; the walk's own text is the same tokens with exact decimals ---- *)
+From DG Require Import T2JBytesTok.
+
+Theorem C03_check304_sound : forall o v d n r m r' out, o_value_mapping o = false ->
+  wf v = true -> conforms v d = true -> desc_wf d = true -> desc_ok d = true ->
+  (depth v <= n)%nat -> (depth v <= max_skip_depth)%nat ->
+  t2j_walk_gen fd_mark o n d (encode v ++ r) = Some (m, r') ->
+  text_agrees (S (length m)) m out = true ->
+  exists e, json_of o d v = TOk e /\ jexp_finite e = true /\ agrees (jtoks e) out.
+Proof. exact check304_sound. Qed.
+Print Assumptions C03_check304_sound.
+
+Theorem C03_walk_text_tokens : forall o v d n r txt r', o_value_mapping o = false ->
+  wf v = true -> conforms v d = true -> desc_wf d = true ->
+  (depth v <= n)%nat -> (depth v <= max_skip_depth)%nat ->
+  t2j_walk n o d (encode v ++ r) = Some (txt, r') ->
+  exists e, json_of o d v = TOk e /\ txt = render f64_exact_lexeme (jtoks e).
+Proof. exact walk_text_tokens. Qed.
+Print Assumptions C03_walk_text_tokens.
